@@ -1270,7 +1270,7 @@ Qed.
    far end of a deque dv of another thread and the thief is at PL2 .. x *)
 Lemma lb_effect (S0 : st) u T k i lc ms rc : u < nthr S0 -> 2 * (u + 1) <= i ->
   let s' := fst (lb_continue S0 u T k i lc ms rc) in
-  ((forall d, dq s' d = dq S0 d) /\ (forall k' i' a b c x, pc (thr s' u) <> PL2 k' i' a b c x)) \/
+  ((forall d, dq s' d = dq S0 d) /\ (forall k' i' a b c x, pc (thr s' u) <> PL2 k' i' a b c x) /\ popT (thr s' u) = None) \/
   (exists dv x l i' a b c, dq S0 dv = l ++ [x] /\ dq s' = upd (dq S0) dv l /\
      pc (thr s' u) = PL2 k i' a b c x /\ 1 <= dv <= 2 * nthr S0 /\ dv <> 2 * u + 1 /\ dv <> 2 * u + 2).
 Proof.
@@ -1281,7 +1281,8 @@ Proof.
       try match goal with |- context [finish ?a ?b ?c ?d] =>
             pose proof (finish_startpc a b c d) as B; destruct (finish a b c d) as [e1 T1]; cbn [snd] in B end;
       cbn [fst dq thr set_thr]; rewrite upd_same; (split; [reflexivity|]);
-      intros k' j a b c x E; try (rewrite E in B; exact B); discriminate.
+      (split; [intros k' j a b c x E; try (rewrite E in B; exact B); discriminate|]);
+      try reflexivity; apply (startpc_g _ B).
   - right. assert (Hr : 2 * (u + 1) <= i' < lb_iend u (nthr S0)) by lia.
     destruct (scan_deque u (nthr S0) i' Hu Hr) as (D1 & D2 & D3).
     exists (qid (i' mod (2 * nthr S0))), x, l, i', lc', rc', ms'. cbn [fst dq thr set_thr]. rewrite upd_same.
@@ -1336,7 +1337,7 @@ Proof.
   - (* PL1 *)
     rewrite fst_let2.
     destruct (lb_effect s u (thr s u) k (2 * (u + 1)) (length (dq s (sfrom s u))) 50 None Hu (Nat.le_refl _))
-      as [[A B]|(dv & x & l & i' & a & b & c & A & B & C & D1 & D2 & D3)].
+      as [(A & B & B')|(dv & x & l & i' & a & b & c & A & B & C & D1 & D2 & D3)].
     + apply DSame. apply A.
     + destruct (Nat.eq_dec d dv) as [->|Hne].
       * apply (DSteal _ _ _ _ x); auto; [rewrite B, upd_same; exact A|]. unfold stolen. rewrite Hpc, C. reflexivity.
@@ -1347,7 +1348,7 @@ Proof.
     assert (Hin : In stolen0 (held (thr s u))) by (unfold held; rewrite Hpc; left; reflexivity).
     assert (Hpush : (sfrom s u = sfrom s u /\ exists k0 i0 a b c, PL2 k i lc rc ms stolen0 = PL2 k0 i0 a b c stolen0)) by eauto 10.
     destruct (lb_effect S0 u (thr s u) k i (S lc) (ms - 1) (Some (rc - 1)) Hu Hi)
-      as [[A B]|(dv & x & l & i' & a & b & c & A & B & C & D1 & D2 & D3)].
+      as [(A & B & B')|(dv & x & l & i' & a & b & c & A & B & C & D1 & D2 & D3)].
     + destruct (Nat.eq_dec d (sfrom s u)) as [->|Hne].
       * apply (DPush _ _ _ _ stolen0); auto. rewrite A. unfold S0; cbn [dq set_dq]. apply upd_same.
         left. rewrite Hpc. exact Hpush.
@@ -1362,4 +1363,62 @@ Proof.
            ++ rewrite B, upd_same. unfold S0 in A; cbn [dq set_dq] in A. rewrite upd_other in A by auto. exact A.
            ++ unfold stolen. rewrite Hpc, C. reflexivity.
         -- apply DSame. rewrite B, upd_other by auto. unfold S0; cbn [dq set_dq]. apply upd_other; auto.
+Qed.
+
+(* like dmatch, but leaves the calls of finish to dfinish *)
+Ltac dmatchf :=
+  repeat match goal with
+  | |- context [match ?b with _ => _ end] =>
+      lazymatch b with
+      | context [match _ with _ => _ end] => fail
+      | finish _ _ _ _ => fail
+      | _ => destruct b
+      end
+  end.
+Ltac dfinish :=
+  repeat match goal with
+  | |- context [finish ?a ?b ?c ?d] =>
+      let B := fresh "B" in pose proof (finish_startpc a b c d) as B;
+      destruct (finish a b c d) as [?e1 ?T1]; cbn [snd] in B
+  end.
+
+(* sfrom of the stepping thread changes only at the swap *)
+Lemma sf_effect s u :
+  sfrom (fst (step s u)) u = sfrom s u \/
+  exists k tmp sv, pc (thr s u) = PN4 k tmp sv /\ sfrom (fst (step s u)) u = sv.
+Proof.
+  unfold step, lb_continue, lb_ret, next_ret.
+  destruct (pc (thr s u)) eqn:Hpc; cbv zeta;
+    try (left; dmatch; reflexivity).
+  right. exists k, tmp, sv. split; auto. cbn. apply upd_same.
+Qed.
+
+(* a fiber is "popped" (pc PN8) after a step of u only by u's pop_bottom *)
+Lemma pop_effect N own s u y : InvN N own s -> u < nthr s -> popT (thr (fst (step s u)) u) = Some y ->
+  exists k, pc (thr s u) = PN7 k /\ pc (thr (fst (step s u)) u) = PN8 k y.
+Proof.
+  intros I0 Hu. pose proof (m_loc N own s I0 u Hu) as L. unfold lokN in L. unfold step.
+  destruct (pc (thr s u)) eqn:Hpc.
+  all: rewrite ?fst_let2.
+  all: try (unfold next_ret; repeat (progress (dfinish; dmatchf)); cbn [fst thr set_thr set_dq]; rewrite ?upd_same; unfold popT;
+            first [ cbn [pc with_pc]; discriminate
+                  | rewrite Hpc; discriminate
+                  | match goal with B : startpc (pc ?T) |- _ => destruct (pc T); try contradiction; discriminate end ]; fail).
+  - (* PN7 *)
+    destruct (dq s (sfrom s u)) as [|z rest]; cbn [fst thr set_thr]; rewrite upd_same; unfold popT; cbn [pc with_pc];
+      [discriminate|]. intros E. inversion E; subst. exists k. auto.
+  - (* PL1 *)
+    intros E.
+    destruct (lb_effect s u (thr s u) k (2 * (u + 1)) (length (dq s (sfrom s u))) 50 None Hu (Nat.le_refl _))
+      as [(A & B & B')|(dv & x & l & i' & a & b & c & A & B & C & D1 & D2 & D3)].
+    + rewrite B' in E. discriminate.
+    + unfold popT in E. rewrite C in E. discriminate.
+  - (* PL2 *)
+    intros E.
+    assert (Hu' : u < nthr (set_dq s (sfrom s u) (stolen0 :: dq s (sfrom s u)))) by exact Hu.
+    destruct L as (_ & _ & Hi).
+    destruct (lb_effect _ u (thr s u) k i (S lc) (ms - 1) (Some (rc - 1)) Hu' Hi)
+      as [(A & B & B')|(dv & x & l & i' & a & b & c & A & B & C & D1 & D2 & D3)].
+    + rewrite B' in E. discriminate.
+    + unfold popT in E. rewrite C in E. discriminate.
 Qed.
